@@ -2,7 +2,7 @@
 import os
 
 from .. import common, evidence
-from . import c04, c05, c06, c07
+from . import c04, c05, c06, c07, c15
 
 PID = 'C08'
 CASES = ['upper', 'capital', 'mixed']
@@ -16,6 +16,8 @@ def check(tier, replay_path=None):
             return c04.run(PID, tier, replay_path, CASES, '', '', [])
         if 'item' in obj and 'home' in obj['item']:
             return prebuilt(tier, replay_path)
+        if 'item' in obj and 'env_spec' in obj['item']:
+            return c15.run(PID, tier, replay_path, cases=CASES, strict=True)
         return c07.run(PID, tier, replay_path, False, CASES, '', '', [])
     path = os.path.join(common.EVIDENCE, PID + '.json')
     rc1 = c07.run(PID, tier, None, positions=False, cases=CASES, rule='', model='', assumptions=[])
@@ -24,6 +26,10 @@ def check(tier, replay_path=None):
     ev2 = common.read_json(path)
     rc3 = prebuilt(tier, None)
     ev3 = common.read_json(path)
+    # callable model elements (functions with effects on the model inside and / or operands among them): the results and
+    # the final population must also equal those computed from the same tokens with lower-case keywords
+    rc4 = c15.run(PID, tier, None, cases=CASES, strict=True)
+    ev4 = common.read_json(path)
     c1, c2, c3 = ev1['coverage'], ev2['coverage'], ev3['coverage']
     cov = {
         'states': c1['states'] + c2['states'] + c3['states'], 'transitions': c1['transitions'] + c2['transitions'] + c3['transitions'],
@@ -44,15 +50,16 @@ def check(tier, replay_path=None):
         'parse': {k: c1[k] for k in ('statements_by_kind', 'expression_trees_enumerated_by_tlc')},
         'execute': {k: c2[k] for k in ('statements_executed_by_kind', 'programs_outside_domain')},
         'prebuild': {'actions_by_home': c3['actions_by_home']},
+        'callables': {'invocations_by_kind': ev4['coverage']['invocations_by_kind']},
         'model': 'OalSyntax.tla / OalTrace.tla, OalExec.tla / OalExecTrace.tla and OalType.tla / OalTypeTrace.tla (as C07, C04, C06)',
         'exhaustive': False,
     }
     evidence.write(PID, tier, 'model_checking', cov, t.s(),
-                   ev1.get('violations', 0) + ev2.get('violations', 0) + ev3.get('violations', 0), [
+                   ev1.get('violations', 0) + ev2.get('violations', 0) + ev3.get('violations', 0) + ev4.get('violations', 0), [
         'identifiers never coincide with keywords, so every token whose lower-case form is a keyword is a keyword',
         'the recorded source text of prebuilt instances (Action_Semantics, literal Value texts, positions) is not compared across cases',
     ])
-    return 1 if (rc1 or rc2 or rc3) else 0
+    return 1 if (rc1 or rc2 or rc3 or rc4) else 0
 
 
 def prebuilt(tier, replay_path):
